@@ -48,7 +48,7 @@ CHECKS = {
     "C12": (MC, T_E,
             "6 salts (absent, empty, ASCII, non-ASCII) x 40 declaration orders of 4 names x all values of the E-val alphabet x 4 weight vectors, plus 10k known answers of the position function, against md5/UTF-8/sorted-names/first-32-bits recomputed independently and the exact partition.",
             NOTE + "Alphabetical order is decided on lower-case ASCII names only.", "3/C12"),
-    "C13": (MC, "bounded-exhaustive adversarial literal substitution; oracle = masked Python AST identity, constant equality, identical sys.setprofile callee sequence, sentinel never called",
+    "C13": (MC, "bounded-exhaustive adversarial literal substitution; oracle = masked Python AST identity, constant equality, no new callee (sys.setprofile) while evaluating, sentinel never called",
             "Every string of length <=3 (thorough <=4) over a 14-character adversarial alphabet plus 35 payloads (referencing a sentinel planted in builtins) in 6 literal positions x both quote styles x both code layouts.",
             "Contents not expressible in the DSL are skipped.", "3/C13"),
     "C14": (MC, T_E,
